@@ -241,6 +241,10 @@ func runC13Concurrent(cases []string, out *bufio.Writer, _ []string) {
 					for n := 0; time.Now().Before(end); n++ {
 						id := fmt.Sprintf("%d.%d", w, n)
 						size := (w*31 + n*7) % (maxSize + 1)
+						if maxSize > 20000 { // large lines (up to 64 KiB and beyond): all writers start their calls on a common 4 ms beat, so that the calls overlap
+							size = maxSize - (w*31+n*7)%(maxSize/2)
+							time.Sleep(time.Until(time.Now().Truncate(4 * time.Millisecond).Add(4 * time.Millisecond)))
+						}
 						if p, v := guard(func() { a.Write(mkLine(id, size)) }); p {
 							mu.Lock()
 							notes = append(notes, fmt.Sprintf("panic(%v)", v))
